@@ -4,7 +4,7 @@
 d=$1; shift
 cd /repo || exit 2
 if [ -n "$(git status --porcelain --untracked-files=no)" ]; then echo "repo dirty, refusing"; exit 2; fi
-git apply $d/patch.diff || { echo "APPLY FAILED"; exit 3; }
+pf=$d/patch.diff; [ -f $d/patch.rebased.diff ] && pf=$d/patch.rebased.diff; git apply $pf || { echo "APPLY FAILED"; exit 3; }
 for p in "$@"; do
   out=$(cd /verif && ./bin/gvc check $p -tier quick 2>&1)
   rc=$?
